@@ -224,6 +224,28 @@ elim: As Bs => [|A As IH] [|B Bs] //= [e1 e2 e3 _ /IH h] /and3P[m0 _ /h ->].
 by rewrite e2 e3 m0.
 Qed.
 
+Lemma zipmul_allpos As Bs : compat As Bs -> allpos As -> allpos Bs -> allpos (zipmul As Bs).
+Proof.
+elim: As Bs => [|A As IH] [|B Bs] //= /andP[_ /IH h] /and3P[m0 _ /h h'] /and3P[_ n0 /h' ->].
+by rewrite m0 n0.
+Qed.
+
+(* (⊗ A_i)(⊗ B_i) = I when A_i B_i = I for every factor *)
+Lemma kron_inv_delta As Bs I L : inv_pairs As Bs -> allpos As -> I < prodm As -> L < prodm As ->
+  (\sum_(J < prodn As) kron As I J * kron Bs J L)%R = ((I == L)%:R)%R.
+Proof.
+move=> ip pA IM LM.
+have cmp := inv_pairs_compat ip. have pB := inv_pairs_pos ip pA.
+have pZ := zipmul_allpos cmp pA pB.
+have eZm := zipmul_prodm cmp. have eZn := zipmul_prodn cmp.
+have sm := inv_pairs_same ip.
+have [sm1 sm2] := same_on_prod sm.
+have sq : prodn Bs = prodm As by rewrite -eZn sm2 prodn_idfac -prodm_idfac -sm1 eZm.
+have pos : all (fun m => 0 < m) (map fm As) by elim: (As) pA => [|A l ih] //= /and3P[-> _ /ih].
+rewrite (kron_mul _ _ cmp pA pB) (kron_ext sm pZ) ?eZm ?eZn ?sq //.
+by rewrite kron_delta // prodm_idfac -prodm_idfac -sm1 eZm.
+Qed.
+
 Theorem kron_solve_fun As Bs c (f : nat -> R) I col :
   inv_pairs As Bs -> allpos As -> 0 < c -> I < prodm As -> col < c ->
   (\sum_(I' < prodn As) kron As I I' * run Bs 1 c f (I' * c + col)%N)%R = f (I * c + col)%N.
